@@ -202,6 +202,23 @@ Definition new_serializer (schema : list bytes) (cfg : ser_config) (buflen : nat
 
 Definition str_environment : bytes := [101;110;118;105;114;111;110;109;101;110;116].
 
+(* the headRewriter != nil branch of the field loop: reserve the header for the maximum length, let the chain
+   write into buffer[position:], patch the header (same width) when the actual length differs *)
+Definition encode_rewritten (head : rewriter) (value : bytes) (rec : record) (buf : bytes) (pos : nat)
+  : outcome (bytes * nat) :=
+  let reserved := pos in
+  maxlen <-- max_field_length head value rec ;;
+  let small := N.of_nat maxlen <? 65536 in
+  '(buf, pos) <-- (if small then encode_string_len16 buf pos maxlen
+                   else encode_string_len32 buf pos maxlen) ;;
+  win <-- window buf pos ;;
+  '(win, actual) <-- write_field_body head value rec win ;;
+  let buf := unwindow buf pos win in
+  buf <-- (if (actual =? maxlen)%nat then Ok buf
+           else '(b, _) <-- (if small then encode_string_len16 buf reserved actual
+                             else encode_string_len32 buf reserved actual) ;; Ok b) ;;
+  Ok (buf, (pos + actual)%nat).
+
 (* the field loop of encodeRecord; the four slices are indexed by the same i *)
 Fixpoint encode_fields (masks : list bool) (keys : list bytes) (rws : list (option rewriter))
          (fields : list bytes) (rec : record) (buf : bytes) (pos cnt : nat) : outcome (bytes * nat * nat) :=
@@ -216,19 +233,7 @@ Fixpoint encode_fields (masks : list bool) (keys : list bytes) (rws : list (opti
         let pos := (pos + n)%nat in
         '(buf, pos) <--
           match rw with
-          | Some head =>
-            let reserved := pos in
-            maxlen <-- max_field_length head value rec ;;
-            let small := N.of_nat maxlen <? 65536 in
-            '(buf, pos) <-- (if small then encode_string_len16 buf pos maxlen
-                             else encode_string_len32 buf pos maxlen) ;;
-            win <-- window buf pos ;;
-            '(win, actual) <-- write_field_body head value rec win ;;
-            let buf := unwindow buf pos win in
-            buf <-- (if (actual =? maxlen)%nat then Ok buf
-                     else '(b, _) <-- (if small then encode_string_len16 buf reserved actual
-                                       else encode_string_len32 buf reserved actual) ;; Ok b) ;;
-            Ok (buf, (pos + actual)%nat)
+          | Some head => encode_rewritten head value rec buf pos
           | None => encode_string_auto buf pos value
           end ;;
         encode_fields masks' keys' rws' fields' rec buf pos (S cnt)
